@@ -4,12 +4,17 @@ import (
 	"context"
 	"fmt"
 	"net"
+	"os"
 	"sort"
 	"strings"
 	"sync"
+	"sync/atomic"
 	"time"
 
 	"github.com/cenkalti/backoff/v4"
+	"github.com/go-faster/errors"
+
+	"github.com/gotd/td/pool"
 
 	"github.com/gotd/td/rpc"
 	"github.com/gotd/td/session"
@@ -21,8 +26,17 @@ import (
 	"github.com/gotd/td/transport"
 )
 
-// patience is the watchdog for "this must eventually happen"; everything else is event driven.
-const patience = 60 * time.Second
+// patience() is the watchdog for "this must eventually happen"; everything else is event driven.  After
+// three scenarios have genuinely timed out (also when re-run) the verdict is settled and the rest of the
+// run only has to terminate.
+var genuineTimeouts atomic.Int64
+
+func patience() time.Duration {
+	if genuineTimeouts.Load() >= 3 {
+		return 3 * time.Second
+	}
+	return 60 * time.Second
+}
 
 // world is one in-process cluster shared by all scenarios; scenarios are distinguished by the
 // request body prefix, each scenario owns its client and its client-side connections.
@@ -30,10 +44,16 @@ type world struct {
 	cl     *cluster.Cluster
 	cancel context.CancelFunc
 	px     *proxy
+	base   context.Context
+	clMu   sync.Mutex
+	upMu   sync.Mutex
+	down   chan struct{}
+	restarts atomic.Int64
 
 	mu      sync.Mutex
-	scen    map[string]*scen // by scenario id (prefix of the message body)
-	byMsgID map[int64]*scen
+	scen     map[string]*scen // by scenario id (prefix of the message body)
+	byMsgID  map[int64]*scen
+	byClient map[any]*scen
 }
 
 type event struct {
@@ -59,6 +79,10 @@ func (e event) String() string {
 		return fmt.Sprintf("inv:%d", e.req)
 	case "dial":
 		return fmt.Sprintf("dial:%d", e.epoch)
+	case "rep":
+		return fmt.Sprintf("rep:%d", e.epoch)
+	case "back":
+		return fmt.Sprintf("back:%d:%d:%s", e.req, e.epoch, e.note)
 	}
 	return e.kind
 }
@@ -77,6 +101,13 @@ type scen struct {
 	msgOf map[int64]int     // msg id -> request
 	errs  map[int]string    // request -> error text
 	bad   []string
+
+	started   bool        // the scenario proper has begun (Run's callback is running)
+	epochs    int         // number of replaceConn calls since then = current connection epoch
+	connEpoch map[any]int // primary connection object -> epoch
+	lastConn  any
+	doom      int // number of upcoming dials that are killed while they connect
+	closedEv  bool
 }
 
 func (s *scen) add(e event) {
@@ -88,8 +119,8 @@ func (s *scen) add(e event) {
 
 // waitFor blocks until pred holds on the log (checked under the lock) or the watchdog fires.
 func (s *scen) waitFor(what string, pred func(log []event) bool) bool {
-	deadline := time.Now().Add(patience)
-	timer := time.AfterFunc(patience, func() { s.mu.Lock(); s.cond.Broadcast(); s.mu.Unlock() })
+	deadline := time.Now().Add(patience())
+	timer := time.AfterFunc(patience(), func() { s.mu.Lock(); s.cond.Broadcast(); s.mu.Unlock() })
 	defer timer.Stop()
 	s.mu.Lock()
 	defer s.mu.Unlock()
@@ -133,7 +164,7 @@ func (k *killConn) kill(mode string) {
 		}
 		select {
 		case <-k.ready:
-		case <-time.After(patience):
+		case <-time.After(patience()):
 		}
 		k.mu.Lock()
 		for _, l := range k.legs {
@@ -169,6 +200,31 @@ func newProxy(target string) (*proxy, error) {
 	return p, nil
 }
 
+// relay copies both directions until one side ends, then closes both.
+func relay(c, up net.Conn) {
+	done := make(chan struct{}, 2)
+	cp := func(dst, src net.Conn) {
+		buf := make([]byte, 32*1024)
+		for {
+			n, err := src.Read(buf)
+			if n > 0 {
+				if _, werr := dst.Write(buf[:n]); werr != nil {
+					break
+				}
+			}
+			if err != nil {
+				break
+			}
+		}
+		done <- struct{}{}
+	}
+	go cp(up, c)
+	go cp(c, up)
+	<-done
+	_ = c.Close()
+	_ = up.Close()
+}
+
 func (p *proxy) serve(c net.Conn) {
 	up, err := net.Dial("tcp4", p.target)
 	if err != nil {
@@ -177,7 +233,7 @@ func (p *proxy) serve(c net.Conn) {
 	}
 	// find the killConn of this client socket (registered right after the dial returned)
 	var k *killConn
-	deadline := time.Now().Add(patience)
+	deadline := time.Now().Add(patience())
 	for k == nil && time.Now().Before(deadline) {
 		p.mu.Lock()
 		k = p.wait[c.RemoteAddr().String()]
@@ -218,30 +274,69 @@ func (p *proxy) serve(c net.Conn) {
 	_ = up.Close()
 }
 
-func newWorld(ctx context.Context) (*world, error) {
-	ctx, cancel := context.WithCancel(ctx)
-	w := &world{cancel: cancel, scen: map[string]*scen{}, byMsgID: map[int64]*scen{}}
-	w.cl = cluster.NewCluster(cluster.Options{Protocol: transport.Intermediate})
-	w.cl.Dispatch(2, "server").HandleFunc(tg.MessagesSendMessageRequestTypeID, w.onSend)
-	go func() { _ = w.cl.Up(ctx) }()
+// startCluster brings up a fresh in-process cluster (the previous one, if any, is abandoned).
+func (w *world) startCluster() error {
+	cl := cluster.NewCluster(cluster.Options{Protocol: transport.Intermediate})
+	cl.Dispatch(2, "server").HandleFunc(tg.MessagesSendMessageRequestTypeID, w.onSend)
+	down := make(chan struct{})
+	go func() {
+		err := cl.Up(w.base)
+		if os.Getenv("VERIF_DEBUG") != "" {
+			fmt.Fprintln(os.Stderr, "c29 debug: cluster ended:", err)
+		}
+		close(down)
+	}()
 	select {
-	case <-w.cl.Ready():
-	case <-time.After(patience):
-		cancel()
-		return nil, fmt.Errorf("cluster did not come up")
+	case <-cl.Ready():
+	case <-time.After(patience()):
+		return fmt.Errorf("cluster did not come up")
 	}
 	target := ""
-	for _, o := range w.cl.List().Options {
+	for _, o := range cl.List().Options {
 		if o.ID == 2 {
 			target = net.JoinHostPort(o.IPAddress, fmt.Sprint(o.Port))
 		}
 	}
-	px, err := newProxy(target)
-	if err != nil {
+	w.clMu.Lock()
+	w.cl = cl
+	w.px = &proxy{target: target}
+	w.down = down
+	w.clMu.Unlock()
+	return nil
+}
+
+// ensureUp: the tgtest cluster shuts down as a whole when one of its connections ends with an
+// unexpected error (e.g. a frame cut in half by a kill); that is a property of the test server, not of
+// the client.  Probe it before every scenario and start a new one if it is gone.
+func (w *world) ensureUp() (*cluster.Cluster, string, error) {
+	w.upMu.Lock()
+	defer w.upMu.Unlock()
+	w.clMu.Lock()
+	cl, target, down := w.cl, w.px.target, w.down
+	w.clMu.Unlock()
+	// (a probe connection would itself take the cluster down: a connection closed before its first byte
+	// makes the listener's codec detection fail and the cluster's accept loop end)
+	select {
+	case <-down:
+	default:
+		return cl, target, nil
+	}
+	w.restarts.Add(1)
+	if err := w.startCluster(); err != nil {
+		return nil, "", err
+	}
+	w.clMu.Lock()
+	defer w.clMu.Unlock()
+	return w.cl, w.px.target, nil
+}
+
+func newWorld(ctx context.Context) (*world, error) {
+	ctx, cancel := context.WithCancel(ctx)
+	w := &world{cancel: cancel, scen: map[string]*scen{}, byMsgID: map[int64]*scen{}, byClient: map[any]*scen{}, base: ctx}
+	if err := w.startCluster(); err != nil {
 		cancel()
 		return nil, err
 	}
-	w.px = px
 	rpc.VerifC24SetHook(func(name string, id int64) {
 		if name != "do.wait" {
 			return
@@ -259,7 +354,83 @@ func newWorld(ctx context.Context) (*world, error) {
 			s.add(event{kind: "seen", req: r})
 		}
 	})
+	telegram.VerifC29SetHook(w.clientHook)
 	return w, nil
+}
+
+type reqKeyT struct{}
+
+type reqTag struct {
+	s *scen
+	r int
+}
+
+// clientHook receives the observation points of telegram.Client (build tag verif).
+func (w *world) clientHook(ctx context.Context, point string, args ...any) {
+	switch point {
+	case "conn.replaced":
+		w.mu.Lock()
+		s := w.byClient[args[0]]
+		w.mu.Unlock()
+		if s == nil {
+			return
+		}
+		s.mu.Lock()
+		s.lastConn = args[1]
+		if s.started {
+			s.epochs++
+			s.connEpoch[args[1]] = s.epochs
+			s.log = append(s.log, event{kind: "rep", epoch: s.epochs})
+			s.cond.Broadcast()
+		}
+		s.mu.Unlock()
+	case "invoke.returned":
+		if ctx == nil {
+			return
+		}
+		tag, ok := ctx.Value(reqKeyT{}).(reqTag)
+		if !ok {
+			return
+		}
+		s := tag.s
+		err, _ := args[2].(error)
+		kind := "ok"
+		retry := false
+		switch {
+		case err == nil:
+		case errors.Is(err, pool.ErrConnDead) || errors.Is(err, rpc.ErrEngineClosed):
+			kind, retry = "retry", true
+		default:
+			kind = "err"
+		}
+		s.mu.Lock()
+		ep, known := s.connEpoch[args[1]]
+		if !known {
+			ep = s.epochs // a connection object never seen in a replacement: the one in place at the start
+			s.connEpoch[args[1]] = ep
+		}
+		s.log = append(s.log, event{kind: "back", req: tag.r, epoch: ep, note: kind})
+		s.cond.Broadcast()
+		s.mu.Unlock()
+		if retry && s.plan.late {
+			// hold the invocation between the failure of conn.Invoke and whatever it does next until the
+			// connection has been replaced (or the client closed): the order in which a late subscriber
+			// to connChanged would miss the wake-up
+			s.waitQuiet(func() bool { return s.epochs > ep || s.closedEv })
+		}
+	}
+}
+
+// waitQuiet waits (bounded, without recording a watchdog failure) until pred holds.
+func (s *scen) waitQuiet(pred func() bool) {
+	deadline := time.Now().Add(10 * time.Second)
+	timer := time.AfterFunc(10*time.Second, func() { s.mu.Lock(); s.cond.Broadcast(); s.mu.Unlock() })
+	defer timer.Stop()
+	s.mu.Lock()
+	defer s.mu.Unlock()
+	for !pred() && time.Now().Before(deadline) {
+		s.cond.Wait()
+	}
 }
 
 // onSend is the server-side handler of messages.sendMessage: the message text is "<scenario>/<request>".
@@ -286,7 +457,7 @@ func (w *world) onSend(server *tgtest.Server, req *tgtest.Request) error {
 	s.mu.Lock()
 	ep, ok := s.sess[req.Session.ID]
 	if !ok {
-		ep = len(s.conns) - 1 // the session belongs to the most recently dialed client connection
+		ep = s.epochs // the session belongs to the primary connection in place now
 		s.sess[req.Session.ID] = ep
 	}
 	s.arr[r]++
@@ -323,10 +494,21 @@ type scenario struct {
 	kill  string   // none | before | arrived | acked | returned
 	mode  string   // local | remote (how the connection is killed)
 	end   string   // reconnect | close
+	flaky int      // after the kill, this many replacement connections fail while they connect
+	fkind string   // how they fail: eof (closed right after the TCP connect) | refuse (the dial itself fails)
+	late  bool     // hold a failed invocation until the connection has been replaced
 }
 
 func (sc scenario) String() string {
-	return fmt.Sprintf("first=%s kill=%s mode=%s end=%s", strings.Join(sc.first, ","), sc.kill, sc.mode, sc.end)
+	l := 0
+	if sc.late {
+		l = 1
+	}
+	fk := sc.fkind
+	if fk == "" {
+		fk = "eof"
+	}
+	return fmt.Sprintf("first=%s kill=%s mode=%s end=%s flaky=%d fkind=%s late=%d", strings.Join(sc.first, ","), sc.kill, sc.mode, sc.end, sc.flaky, fk, l)
 }
 
 type outcome struct {
@@ -337,7 +519,7 @@ type outcome struct {
 }
 
 func (w *world) run(ctx context.Context, id string, sc scenario) outcome {
-	s := &scen{id: id, plan: sc, w: w, sess: map[int64]int{}, arr: map[int]int{}, msgOf: map[int64]int{}, errs: map[int]string{}}
+	s := &scen{id: id, plan: sc, w: w, sess: map[int64]int{}, arr: map[int]int{}, msgOf: map[int64]int{}, errs: map[int]string{}, connEpoch: map[any]int{}}
 	s.cond = sync.NewCond(&s.mu)
 	w.mu.Lock()
 	w.scen[id] = s
@@ -348,18 +530,82 @@ func (w *world) run(ctx context.Context, id string, sc scenario) outcome {
 		w.mu.Unlock()
 	}()
 
+	cl, target, err := w.ensureUp()
+	if err != nil {
+		s.bad = append(s.bad, "watchdog: test cluster could not be started: "+err.Error())
+		return outcome{bad: s.bad, errs: s.errs}
+	}
 	var d net.Dialer
 	resolver := dcs.Plain(dcs.PlainOptions{
 		Protocol: transport.Intermediate,
 		Dial: func(ctx context.Context, network, addr string) (net.Conn, error) {
-			c, err := d.DialContext(ctx, network, w.px.l.Addr().String())
+			// a private relay per dial: client socket <-> relay <-> server, so that the harness can kill the
+			// connection from the remote side as well
+			l, err := net.Listen("tcp4", "127.0.0.1:0")
 			if err != nil {
 				return nil, err
 			}
-			k := &killConn{Conn: c, ready: make(chan struct{})}
-			w.px.mu.Lock()
-			w.px.wait[c.LocalAddr().String()] = k
-			w.px.mu.Unlock()
+			acc := make(chan net.Conn, 1)
+			go func() {
+				pc, err := l.Accept()
+				_ = l.Close()
+				if err != nil {
+					close(acc)
+					return
+				}
+				acc <- pc
+			}()
+			c, err := d.DialContext(ctx, network, l.Addr().String())
+			if err != nil {
+				_ = l.Close()
+				return nil, err
+			}
+			pc, ok := <-acc
+			if !ok {
+				_ = c.Close()
+				return nil, fmt.Errorf("relay accept failed")
+			}
+			s.mu.Lock()
+			doomed := false
+			if s.doom > 0 {
+				s.doom--
+				doomed = true
+			}
+			s.mu.Unlock()
+			if doomed && sc.fkind == "refuse" {
+				// the replacement connection cannot even be dialed (the client fails before its connection's
+				// init callback runs)
+				_ = pc.Close()
+				_ = c.Close()
+				s.mu.Lock()
+				s.conns = append(s.conns, &killConn{Conn: c, ready: make(chan struct{})})
+				s.log = append(s.log, event{kind: "dial", epoch: len(s.conns) - 1})
+				s.cond.Broadcast()
+				s.mu.Unlock()
+				return nil, fmt.Errorf("fake: connection refused")
+			}
+			if doomed {
+				// this replacement connection dies while the client connects on it, before anything reaches
+				// the server: the relay end is closed at once
+				_ = pc.Close()
+				k := &killConn{Conn: c, ready: make(chan struct{})}
+				close(k.ready)
+				s.mu.Lock()
+				s.conns = append(s.conns, k)
+				s.log = append(s.log, event{kind: "dial", epoch: len(s.conns) - 1})
+				s.cond.Broadcast()
+				s.mu.Unlock()
+				return k, nil
+			}
+			up, err := d.DialContext(ctx, "tcp4", target)
+			if err != nil {
+				_ = c.Close()
+				_ = pc.Close()
+				return nil, err
+			}
+			k := &killConn{Conn: c, ready: make(chan struct{}), legs: []net.Conn{pc, up}}
+			close(k.ready)
+			go relay(pc, up)
 			s.mu.Lock()
 			s.conns = append(s.conns, k)
 			s.log = append(s.log, event{kind: "dial", epoch: len(s.conns) - 1})
@@ -369,16 +615,29 @@ func (w *world) run(ctx context.Context, id string, sc scenario) outcome {
 		},
 	})
 	client := telegram.NewClient(1, "hash", telegram.Options{
-		PublicKeys:     w.cl.Keys(),
+		PublicKeys:     cl.Keys(),
 		Resolver:       resolver,
 		SessionStorage: &session.StorageMemory{},
-		DCList:         w.cl.List(),
+		DCList:         cl.List(),
 		NoUpdates:      true,
+		OnDead: func(err error) {
+			if os.Getenv("VERIF_DEBUG") != "" {
+				fmt.Fprintln(os.Stderr, "c29 debug: connection dead:", err)
+			}
+		},
 		RetryInterval:  time.Hour, // no retransmission on the same connection: every arrival is a (re)send by invokeConn
 		ReconnectionBackoff: func() backoff.BackOff {
 			return backoff.NewConstantBackOff(5 * time.Millisecond)
 		},
 	})
+	w.mu.Lock()
+	w.byClient[client] = s
+	w.mu.Unlock()
+	defer func() {
+		w.mu.Lock()
+		delete(w.byClient, client)
+		w.mu.Unlock()
+	}()
 	cctx, ccancel := context.WithCancel(ctx)
 	defer ccancel()
 	n := len(sc.first)
@@ -386,11 +645,13 @@ func (w *world) run(ctx context.Context, id string, sc scenario) outcome {
 		s.mu.Lock()
 		k := s.conns[len(s.conns)-1]
 		s.log = append(s.log, event{kind: "kill"})
+		s.doom = sc.flaky
 		s.mu.Unlock()
 		k.kill(sc.mode)
 	}
 	invoke := func(ictx context.Context, r int) {
 		s.add(event{kind: "inv", req: r})
+		ictx = context.WithValue(ictx, reqKeyT{}, reqTag{s, r})
 		err := client.SendMessage(ictx, &tg.MessagesSendMessageRequest{Peer: &tg.InputPeerUser{}, Message: fmt.Sprintf("%s/%d", id, r)})
 		if err != nil {
 			s.mu.Lock()
@@ -406,6 +667,12 @@ func (w *world) run(ctx context.Context, id string, sc scenario) outcome {
 	started := make(chan struct{})
 	go func() {
 		runErr <- client.Run(cctx, func(ictx context.Context) error {
+			s.mu.Lock()
+			s.started = true
+			if s.lastConn != nil {
+				s.connEpoch[s.lastConn] = 0
+			}
+			s.mu.Unlock()
 			close(started)
 			if sc.kill == "before" {
 				kill()
@@ -453,7 +720,11 @@ func (w *world) run(ctx context.Context, id string, sc scenario) outcome {
 						return count(l, func(e event) bool { return e.kind == "arr" }) >= n
 					})
 				}
-				s.add(event{kind: "close"})
+				s.mu.Lock()
+				s.closedEv = true
+				s.log = append(s.log, event{kind: "close"})
+				s.cond.Broadcast()
+				s.mu.Unlock()
 				return nil // returning from the callback closes the client
 			}
 			s.waitFor("all invocations return", returned(n))
@@ -467,13 +738,13 @@ func (w *world) run(ctx context.Context, id string, sc scenario) outcome {
 	case err := <-runErr:
 		s.bad = append(s.bad, fmt.Sprintf("client did not start: %v", err))
 		return outcome{log: s.log, bad: s.bad, errs: s.errs}
-	case <-time.After(patience):
+	case <-time.After(patience()):
 		s.bad = append(s.bad, "watchdog: client start")
 		return outcome{log: s.log, bad: s.bad, errs: s.errs}
 	}
 	select {
 	case <-runErr:
-	case <-time.After(2 * patience):
+	case <-time.After(2 * patience()):
 		s.bad = append(s.bad, "watchdog: client.Run did not return")
 	}
 	// pending invocations must have returned once the client is closed
@@ -492,7 +763,7 @@ func (w *world) run(ctx context.Context, id string, sc scenario) outcome {
 			} else {
 				out.after = "err"
 			}
-		case <-time.After(patience):
+		case <-time.After(patience()):
 			out.after = "blocked"
 		}
 	}
